@@ -335,6 +335,17 @@ Definition check_merge (c : merge_case) : N :=
            then V_OK else V_VIOLATION
        end.
 
+(* ------------------------------------------------------------ several commit() calls on ONE workspace *)
+(* (operations of the workspace, result of every commit() call, block tx lists of the final chain, verify code):
+   at most one call returns Ok, the operations are in exactly as many blocks as calls returned Ok (0 or 1) *)
+Definition dup_case := (list tx * list N * list (list tx) * N)%type.
+Definition check_dup (c : dup_case) : N :=
+  let '(ops, res, chain, ver) := c in
+  let oks := N.of_nat (length (filter (fun r => N.eqb r 0) res)) in
+  (* blocks that hold any of the workspace's (uniquely valued) operations *)
+  let occ := N.of_nat (length (filter (fun b => existsb (fun t => existsb (tx_eqb t) ops) b) chain)) in
+  if N.eqb ver 0 && N.leb oks 1 && N.eqb occ oks then V_OK else V_VIOLATION.
+
 (* ------------------------------------------------------------ replicas *)
 (* a block offered to both replicas: (txs, root_good, raw description of the rest) *)
 Definition rblock := (list tx * bool * rawdesc)%type.
@@ -396,3 +407,4 @@ Definition check_tamper1 (c : N * tamper_case) : N := check_tamper (fst c) (snd 
 Definition check_conc1 (c : N * conc_case) : N := check_conc (fst c) (snd c).
 Definition check_replay1 (c : N * replay_case) : N := check_replay (fst c) (snd c).
 Definition check_merge1 (c : N * merge_case) : N := check_merge (snd c).
+Definition check_dup1 (c : N * dup_case) : N := check_dup (snd c).
